@@ -287,6 +287,142 @@ def part_construction(pf):
     return None
 
 
+def writer_closure_rules(ctx, prog, rid):
+    """save() hands the writer every reachable part and the package relationships; the writer writes the content types computed from
+    those same parts, the package relationships, every part under its own name with its own blob, and the relationship item of
+    every part that has relationships (shared by C01 R1.2 and C02 R2.6).  Decided on canonical (desugared, helper-inlined)
+    functions and on paths, so guard style, temporaries and extracted helpers do not matter."""
+    import copy as _copy
+
+    from sa import paths as P_
+    from sa.inline import expand
+    from sa.itersrc import source_of
+
+    pk = prog.modules["pptx.opc.package"]
+    ser = prog.modules["pptx.opc.serialized"]
+    opc = pk.classes.get("OpcPackage")
+    sv = opc.methods.get("save") if opc else None
+    pw = ser.classes.get("PackageWriter")
+    if sv is None or pw is None:
+        raise AnalysisError("anchor vanished: OpcPackage.save / PackageWriter")
+
+    def canon(f):
+        g = _copy.copy(f)
+        g.node = expand(prog, f)
+        return g
+
+    # save (not helper-inlined: the call of the writer is what is looked for)
+    from sa.desugar import desugar as _ds
+
+    svx = _copy.copy(sv)
+    svx.node = _ds(sv.node)
+    al = P_.aliases(svx.node)
+    wcalls = [c for c in ast.walk(svx.node) if isinstance(c, ast.Call) and (dotted(c.func) or "").endswith("PackageWriter.write")]
+    good = False
+    if wcalls:
+        a = wcalls[0].args
+        if len(a) == 3:
+            parts_src = source_of(svx.node, a[2])
+            good = (P_.norm(a[0], al) == sv.node.args.args[1].arg and P_.norm(a[1], al) == "self._rels"
+                    and parts_src["terminal"] == "self.iter_parts()" and not parts_src["filtered"] and not parts_src["lossy"])
+    if not wcalls:
+        ctx.error("OpcPackage.save", "call of PackageWriter.write not found")
+    elif good:
+        ctx.ok(rid, "OpcPackage.save", sample={"writes": "PackageWriter.write(file, self._rels, <all of self.iter_parts()>)"})
+    else:
+        ctx.violation(rid, "OpcPackage.save", "save does not hand the writer all reachable parts and the package relationships (%s)"
+                      % ast.unparse(wcalls[0])[:90], file=sv.file, line=sv.line)
+    # _write: the three steps on every path
+    wr = pw.methods.get("_write")
+    if wr is None:
+        raise AnalysisError("anchor vanished: PackageWriter._write")
+    need = {"_write_content_types_stream", "_write_pkg_rels", "_write_parts"}
+    missing_on = None
+    body = wr.node.body
+    # the steps run inside `with ... as phys_writer:`: enumerate paths through the innermost with-body
+    inner = body
+    for n in ast.walk(wr.node):
+        if isinstance(n, ast.With):
+            inner = n.body
+    for pth in P_.enum_paths(inner):
+        if pth.end == "raise":
+            continue
+        called = {(dotted(c.func) or "").split(".")[-1] for st in pth.stmts() for c in ast.walk(st) if isinstance(c, ast.Call)}
+        if not need <= called:
+            missing_on = sorted(need - called)
+    if missing_on is None:
+        ctx.ok(rid, "PackageWriter._write", sample={"every_path": sorted(need)})
+    else:
+        ctx.violation(rid, "PackageWriter._write", "a path through the writer skips %s" % missing_on, file=wr.file, line=wr.line)
+    # _write_parts
+    wp = pw.methods.get("_write_parts")
+    if wp is None:
+        raise AnalysisError("anchor vanished: PackageWriter._write_parts")
+    wpx = canon(wp)
+    alp = P_.aliases(wpx.node)
+    loops = [n for n in ast.walk(wpx.node) if isinstance(n, ast.For) and isinstance(n.target, ast.Name)
+             and source_of(wpx.node, n.iter)["terminal"] in ("self._parts",)]
+    if not loops:
+        ctx.error("PackageWriter._write_parts", "loop over self._parts not recognised")
+    else:
+        lp = loops[0]
+        v = lp.target.id
+        src = source_of(wpx.node, lp.iter)
+        probs = []
+        if src["filtered"] or src["lossy"]:
+            probs.append("the parts are filtered before writing (%s)" % (src["filtered"] or src["lossy"]))
+        for pth in P_.enum_paths(lp.body):
+            if pth.end == "raise":
+                continue
+            writes = []
+            for st in pth.stmts():
+                for c in ast.walk(st):
+                    if isinstance(c, ast.Call) and isinstance(c.func, ast.Attribute) and c.func.attr == "write" and len(c.args) == 2:
+                        writes.append((P_.norm(c.args[0], alp), P_.norm(c.args[1], alp)))
+            if (v + ".partname", v + ".blob") not in writes:
+                probs.append("a path does not write the part under its own name with its own blob")
+            fs = P_.facts(pth, None, alp)
+            has_rels = [a_ for a_ in fs if a_[0] == "truthy" and a_[1] in (v + "._rels", v + ".rels", "len(%s._rels)" % v, "len(%s.rels)" % v)]
+            wrote_rels = (v + ".partname.rels_uri", v + ".rels.xml") in writes or (v + ".partname.rels_uri", v + "._rels.xml") in writes
+            if any(a_[2] is True for a_ in has_rels) and not wrote_rels:
+                probs.append("a part that has relationships does not get its relationship item written")
+            if not has_rels and not wrote_rels:
+                probs.append("the relationship item is not written")
+        if probs:
+            ctx.violation(rid, "PackageWriter._write_parts", "; ".join(sorted(set(probs))), file=wp.file, line=wp.line)
+        else:
+            ctx.ok(rid, "PackageWriter._write_parts", sample={"per_part": "write(partname, blob); when it has relationships: write(partname.rels_uri, rels.xml)"})
+    wpr = pw.methods.get("_write_pkg_rels")
+    alr = P_.aliases(wpr.node) if wpr else {}
+    if wpr is not None and any(isinstance(c, ast.Call) and len(c.args) == 2 and [P_.norm(a_, alr) for a_ in c.args] == ["PACKAGE_URI.rels_uri", "self._pkg_rels.xml"]
+                               for c in ast.walk(wpr.node)):
+        ctx.ok(rid, "PackageWriter._write_pkg_rels", nontrivial=False)
+    else:
+        ctx.violation(rid, "PackageWriter._write_pkg_rels", "package relationships are not written to /_rels/.rels", file=pw.file,
+                      line=wpr.line if wpr else pw.line)
+    wct = pw.methods.get("_write_content_types_stream")
+    alc = P_.aliases(wct.node) if wct else {}
+    okc = wct is not None and any(isinstance(c, ast.Call) and (dotted(c.func) or "").endswith("_ContentTypesItem.xml_for")
+                                  and [P_.norm(a_, alc) for a_ in c.args] == ["self._parts"] for c in ast.walk(wct.node)) \
+        and any(P_.norm(a_, alc) == "CONTENT_TYPES_URI" for c in ast.walk(wct.node) if isinstance(c, ast.Call) for a_ in c.args)
+    if okc:
+        ctx.ok(rid, "PackageWriter._write_content_types_stream", nontrivial=False)
+    else:
+        ctx.violation(rid, "PackageWriter._write_content_types_stream", "content types are not computed from the same parts that are written",
+                      file=pw.file, line=wct.line if wct else pw.line)
+    init = pw.methods.get("__init__")
+    wcm = pw.methods.get("write")
+    pnames = [a_.arg for a_ in init.node.args.args][1:4] if init else []
+    passthru = init is not None and len(pnames) == 3 and stored_from_param(init, "_pkg_file") == pnames[0] \
+        and stored_from_param(init, "_pkg_rels") == pnames[1] and stored_from_param(init, "_parts") == pnames[2] and wcm is not None and any(
+            isinstance(c, ast.Call) and dotted(c.func) == "cls" and [dotted(a_) for a_ in c.args] == [x.arg for x in wcm.node.args.args][1:4]
+            for c in ast.walk(wcm.node))
+    if passthru:
+        ctx.ok(rid, "PackageWriter.write", nontrivial=False)
+    else:
+        ctx.violation(rid, "PackageWriter.write", "write() does not pass (file, rels, parts) through unchanged", file=pw.file, line=pw.line)
+
+
 def run(ctx):
     from checks.c10 import load
 
@@ -418,70 +554,7 @@ def run(ctx):
         ctx.ok("R1.2", "OpcPackage.iter_parts:source", nontrivial=False)
     else:
         ctx.violation("R1.2", "OpcPackage.iter_parts:source", "iter_parts does not follow iter_rels", file=ip.file, line=ip.line)
-    wcalls = _calls(sv.node, "write")
-    good = False
-    if wcalls:
-        a = wcalls[0].args
-        good = (len(a) == 3 and dotted(a[1]) == "self._rels" and isinstance(a[2], ast.Call) and dotted(a[2].func) in ("tuple", "list")
-                and isinstance(a[2].args[0], ast.Call) and dotted(a[2].args[0].func) == "self.iter_parts"
-                and dotted(a[0]) == sv.node.args.args[1].arg)
-    if good:
-        ctx.ok("R1.2", "OpcPackage.save", sample={"writes": "PackageWriter.write(file, self._rels, tuple(self.iter_parts()))"})
-    else:
-        ctx.violation("R1.2", "OpcPackage.save", "save does not hand the writer all reachable parts and the package relationships",
-                      file=sv.file, line=sv.line)
-    pw = ser.classes.get("PackageWriter")
-    if pw is None:
-        raise AnalysisError("anchor vanished: PackageWriter")
-    wr = pw.methods.get("_write")
-    called = [dotted(c.func).split(".")[-1] for c in ast.walk(wr.node) if isinstance(c, ast.Call) and (dotted(c.func) or "").startswith("self._write_")]
-    if set(called) == {"_write_content_types_stream", "_write_pkg_rels", "_write_parts"} and not any(isinstance(n, (ast.If, ast.Try)) for n in ast.walk(wr.node)):
-        ctx.ok("R1.2", "PackageWriter._write", sample={"calls": called})
-    else:
-        ctx.violation("R1.2", "PackageWriter._write", "writer does not unconditionally write content types, package rels and parts: %s" % called,
-                      file=wr.file, line=wr.line)
-    wp = pw.methods.get("_write_parts")
-    good = False
-    for loop in [n for n in ast.walk(wp.node) if isinstance(n, ast.For)]:
-        if dotted(loop.iter) != "self._parts":
-            continue
-        v = loop.target.id
-        first = loop.body[0]
-        w1 = isinstance(first, ast.Expr) and isinstance(first.value, ast.Call) and [dotted(a) for a in first.value.args] == [v + ".partname", v + ".blob"]
-        w2 = False
-        for st in loop.body[1:]:
-            if isinstance(st, ast.If) and dotted(st.test) in (v + "._rels", v + ".rels") or (
-                    isinstance(st, ast.If) and isinstance(st.test, ast.Call) and dotted(st.test.func) == "len"):
-                for c in ast.walk(st):
-                    if isinstance(c, ast.Call) and [dotted(a) for a in c.args] == [v + ".partname.rels_uri", v + ".rels.xml"]:
-                        w2 = True
-        good = w1 and w2 and not any(isinstance(n, (ast.Continue, ast.Break)) for n in ast.walk(loop))
-    if good:
-        ctx.ok("R1.2", "PackageWriter._write_parts", sample={"per_part": "write(partname, blob); if rels: write(partname.rels_uri, rels.xml)"})
-    else:
-        ctx.violation("R1.2", "PackageWriter._write_parts", "not every part is written under its own name with its own blob and relationship item",
-                      file=wp.file, line=wp.line)
-    wpr = pw.methods.get("_write_pkg_rels")
-    if any(isinstance(c, ast.Call) and [dotted(a) for a in c.args] == ["PACKAGE_URI.rels_uri", "self._pkg_rels.xml"] for c in ast.walk(wpr.node)):
-        ctx.ok("R1.2", "PackageWriter._write_pkg_rels", nontrivial=False)
-    else:
-        ctx.violation("R1.2", "PackageWriter._write_pkg_rels", "package relationships are not written to /_rels/.rels", file=wpr.file, line=wpr.line)
-    wct = pw.methods.get("_write_content_types_stream")
-    if any(isinstance(c, ast.Call) and dotted(c.func) == "_ContentTypesItem.xml_for" and [dotted(a) for a in c.args] == ["self._parts"]
-           for c in ast.walk(wct.node)) and any(dotted(a) == "CONTENT_TYPES_URI" for c in ast.walk(wct.node) if isinstance(c, ast.Call) for a in c.args):
-        ctx.ok("R1.2", "PackageWriter._write_content_types_stream", nontrivial=False)
-    else:
-        ctx.violation("R1.2", "PackageWriter._write_content_types_stream", "content types are not computed from the same parts that are written",
-                      file=wct.file, line=wct.line)
-    init = pw.methods.get("__init__")
-    wcm = pw.methods.get("write")
-    passthru = init is not None and stored_from_param(init, "_parts") == "parts" and stored_from_param(init, "_pkg_rels") == "pkg_rels" \
-        and stored_from_param(init, "_pkg_file") == "pkg_file" and any(
-            isinstance(c, ast.Call) and dotted(c.func) == "cls" and [dotted(a) for a in c.args] == ["pkg_file", "pkg_rels", "parts"] for c in ast.walk(wcm.node))
-    if passthru:
-        ctx.ok("R1.2", "PackageWriter.write", nontrivial=False)
-    else:
-        ctx.violation("R1.2", "PackageWriter.write", "write() does not pass (file, rels, parts) through unchanged", file=pw.file, line=pw.line)
+    writer_closure_rules(ctx, prog, "R1.2")
 
     # -- R1.3 --------------------------------------------------------------------------------------------
     ctx.rule("R1.3", "relationships are serialised and re-read field by field")
